@@ -4,9 +4,9 @@ import json, sys
 
 CLAIMED = {
  "C15": ("3/C15", "seeded search over scope trees (three managers, with-blocks and decorators, re-entrant, depth<=6) whose bodies run MyGrad statements, toggles and raises that unwind 1..k scopes; a per-manager stack model is compared with both switches (public query, anchored module variable, behavioural probe statement) after every enter/exit/statement; every statement executed with tracking off is checked for 'nothing recorded, same values, written in place'",
-         "trusts: LIFO scope exits only (generators/threads are outside 'any nesting'); a toggle made inside a no_autodiff-only scope is asserted neither way in the main lane"),
- "C17": ("3/C17 (aliasing and identity clauses only)", "seeded search over histories of construction/conversion events on caller arrays and on tensors (copy/dtype/constant options, astensor, asarray, copy(), astype()) followed by later writes of the caller into its arrays, ops and backward; the aliasing model is confirmed by the actual later writes; astensor(t) identity is checked by a twin history that never made the call; copy()/astype() results must be detached",
-         "NOT addressed: the creation-routine parity clause (zeros/ones/arange...) and dtype rejection, which are per-call relations outside this technique; trusts np.shares_memory"),
+         "scopes held open outside the call stack (suspended generator, ExitStack, manual __enter__) are left in any order relative to scopes of the OTHER setting; for one and the same setting only last-in-first-out exits are generated (no agreed meaning otherwise); threads are not simulated; a toggle made inside a no_autodiff-only scope is asserted neither way in the main lane"),
+ "C17": ("3/C17", "seeded search over histories of construction/conversion events on caller arrays and on tensors (copy/dtype/constant options, astensor, asarray, copy(), astype()) followed by later writes of the caller into its arrays, ops and backward; the aliasing model is confirmed by the actual later writes; astensor(t) identity is checked by a twin history that never made the call; copy()/astype() results must be detached; creation routines (zeros/ones/empty/full/*_like/arange/linspace/logspace/geomspace/eye/identity) called with explicit arguments inside those histories (also inside no_autodiff) are compared call by call with their NumPy namesakes (values, shape, dtype, detached, constant flag, dtype gate)",
+         "the creation-routine clause is a per-call differential check that merely rides along in the histories (it has no schedule or fault in it; the only state it depends on is the tracking switch); trusts np.shares_memory and NumPy as the reference"),
  "C18": ("3/C18", "seeded search over histories with save events at arbitrary points (live graph, locked memory, view gradients, every dtype, 0-d) to simulated file objects (seekable / offset / non-seekable / write error at the k-th write) and scratch paths, and loads later; round-trip equality of data, dtype, shape and gradient; snapshots around save; twin history without the save/load events",
          "modest: mostly an input-quantified relation; nothing is asserted about a torn file after an injected write error; load inside no_autodiff is not judged for the gradient"),
  "C07": ("3/C07", "seeded search over training-loop histories (persistent leaves, per-iteration programs with views and in-place updates, leaf updates inside and outside no_autodiff, null_grad, verbatim repeated iterations, varied handle-drop order) with the cyclic collector disabled (lane R) or driven by events and PEP 669 pre-emption (lane G); weakref ground truth for 'everything in the cleared graph the caller does not hold is dead without a GC pass', a per-handle gradient-lifetime state machine, bit-identical repeats, gradients vs the tape",
